@@ -97,6 +97,13 @@ def driver(prog, S):
         body.append("      for (int j = 0; j < NBUF; ++j) { auto b = %sstatic_cast<const unsigned char *>(ptr[j]), (size_t)BLEN[j]);" % mk)
         body.append("        if (a.Ok() && b.Ok()) { ++g_calls; row += a.Equals(b) ? '1' : '0'; } else row += '-'; }")
         body.append("      std::puts(row.c_str());")
+        # a view over constant storage assigned from a view over writable storage (parameters travel with the assignment)
+        body.append("      { auto wsrc = %sptr[i], (size_t)BLEN[i]); decltype(a) ro; ro = wsrc; ++g_calls;" % mk)
+        body.append("        if (ro.Ok() != a.Ok() || ro.IsComplete() != a.IsComplete()) cv(\"assigned-view-differs\", %d, i, 0);" % pi)
+        if has_float:
+            body.append("        }")          # NaN != NaN: Equals of identical bytes is unspecified when a Float holds a NaN
+        else:
+            body.append("        else if (a.Ok() && (!ro.Equals(a) || !a.Equals(ro))) cv(\"assigned-view-differs\", %d, i, 1); }" % pi)
         # copies into destinations of every length
         body.append("      for (int d = 0; d <= %d + 2; ++d) { unsigned char *dst = (unsigned char *)std::malloc(d ? d : 1); std::memset(dst, 0xEE, d ? d : 1);" % maxlen)
         body.append("        auto dv = %sdst, (size_t)d); ++g_calls; bool r = dv.TryToCopyFrom(a);" % mk)
